@@ -53,8 +53,14 @@ def run_job(job):
                 w.update(indicator=name)
                 viol.append({'key': key, 'msg': msg, 'witness': w})
 
-        for pi, kw in enumerate(psets):
-            for n in job['lengths']:
+        # windows exactly as long as the input that is available: period = n for a short input, period = W for a long one
+        # (the single-value call only sees the trailing W candles)
+        pk = [k_ for k_ in indlib.period_keys(sig) if k_ != 'order']     # (minmax: `order` is not a window length)
+        full_window = [({k_: min(n_, W) for k_ in pk}, n_) for n_ in (60, W, 400)] if pk and job['nparams'] > 0 else []
+        cases = [(pi, kw, n) for pi, kw in enumerate(psets) for n in job['lengths']] + \
+                [(1000 + j, kw, n_) for j, (kw, n_) in enumerate(full_window)]
+        for pi, kw, n in cases:
+            for _once in (0,):
                 X = indlib.series(rng.choice(job['kinds']), n, rng.randrange(1 << 30))
                 X2 = indlib.series('walk', n, rng.randrange(1 << 30))
                 # every call gets private copies of the pristine series; the copies are compared afterwards (an indicator that
@@ -76,6 +82,14 @@ def run_job(job):
                 try:
                     single = indlib.fields(indlib.call(name, f, sig, Xb, kw, False, X2b))
                 except Exception as ex:
+                    if n > W:
+                        # the single-value call only sees the trailing W candles: it may raise exactly when the sequential call
+                        # on those W candles raises too (a window longer than the available input)
+                        try:
+                            indlib.call(name, f, sig, X[-W:].copy(), kw, True, X2[-W:].copy())
+                        except Exception:
+                            cnt['single_and_trailing_window_both_raise'] = cnt.get('single_and_trailing_window_both_raise', 0) + 1
+                            continue
                     bad(f'single_raises:{name}', f'{name}({kw}) sequential works on {n} candles, non-sequential raises {ex!r}',
                         params=kw, n=n)
                     continue
@@ -143,12 +157,12 @@ def make_jobs(tier, seed):
     for i in range(0, len(names), chunk):
         jobs.append({'names': names[i:i + chunk], 'seed': rng.randrange(1 << 30), 'mode': 'bc',
                      'nparams': 4 if tier == 'quick' else 30, 'lengths': LENGTHS if tier == 'thorough' else [60, 239, 240, 241, 400],
-                     'kinds': ['walk', 'lattice', 'gappy', 'alternating'], 'want_sample': i == 0})
+                     'kinds': ['walk', 'lattice', 'gappy', 'alternating', 'zerovol'], 'want_sample': i == 0})
     if tier == 'thorough':
         for rep in range(6):
             for i in range(0, len(names), chunk):
                 jobs.append({'names': names[i:i + chunk], 'seed': rng.randrange(1 << 30), 'mode': 'bc', 'nparams': 40, 'lengths': LENGTHS,
-                             'kinds': ['walk', 'lattice', 'gappy', 'alternating', 'trend', 'spikes', 'flat']})
+                             'kinds': ['walk', 'lattice', 'gappy', 'alternating', 'trend', 'spikes', 'flat', 'zerovol', 'tiny']})
         for i in range(0, len(names), chunk):
             jobs.append({'names': names[i:i + chunk], 'seed': rng.randrange(1 << 30), 'mode': 'jit', 'nparams': 3,
                          'lengths': LENGTHS, 'kinds': ['walk', 'flat', 'alternating']})
